@@ -12,6 +12,8 @@ Universe == CASE Kind = "u06" -> U06
               [] Kind = "neigh" -> NeighbourCases
               [] Kind = "namesA" -> NamesA
               [] Kind = "texts" -> Texts
+              [] Kind = "ctl" -> CtlNames
+              [] Kind = "strnames" -> StrNames
               [] Kind = "wires" -> PlainCases
               [] Kind = "segs" -> SegCases
               [] Kind = "wnames" -> WNames
